@@ -390,3 +390,98 @@ var specs = []fnSpec{
 		effects: true,
 	},
 }
+
+// ---- the client's accounting (client/gribiclient.go)
+
+var (
+	clPend   = stateField{goExpr: "c.qs.pendq.Ops", lean: "pendOps", kd: kind{k: "map", s: "PendingOp", t: []kind{kNat}}}
+	clElec   = stateField{goExpr: "c.qs.pendq.Election", lean: "pendElec", kd: kPtr("ElectionReqDetails")}
+	clParams = stateField{goExpr: "c.qs.pendq.SessionParams", lean: "pendParams", kd: kPtr("SessionParamReqDetails")}
+	clResq   = stateField{goExpr: "c.qs.resultq", lean: "resultq", kd: kind{k: "list", s: "COpResult", optElems: true}}
+	// every call of unixTS() is represented by the same number: no translated decision reads a clock
+	clNow   = param{goName: "§now", lean: "now", kd: kInt}
+	clTreat = param{goName: "§treat", lean: "treat", kd: kBool}
+	clSess  = param{goName: "§sessParams", lean: "sessParams", kd: kPtr("SessionParameters")}
+	clOpFrom = param{goName: "§opFrom", lean: "opFrom", kd: kind{k: "fun", t: []kind{kEnum, kEnum}}}
+	clOracles = map[string]oracle{
+		"unixTS":                {results: []string{"§now"}},
+		"constants.OpFromAFTOp": {results: []string{"§opFrom@0"}},
+	}
+	clSubst = map[string]string{"TreatRIBACKAsCompletedInFIBACKMode": "§treat", "c.state.SessParams": "§sessParams"}
+	clTypes = map[string]string{"OpResult": "COpResult"}
+)
+
+var clientSpecs = []fnSpec{
+	{
+		file: "client/gribiclient.go", goName: "addPendingOp", recvType: "*Client", callAs: "c.addPendingOp", leanName: "addPendingOp",
+		params:       []param{{goName: "op", goType: "*spb.AFTOperation", lean: "op", kd: kPtr("AFTOperationC"), nonnil: true}},
+		goRets:       "error", rets: []string{"err"},
+		oracleParams: []param{clNow},
+		oracles:      clOracles,
+		state:        []stateField{clPend},
+	},
+	{
+		file: "client/gribiclient.go", goName: "updatePendingElection", recvType: "*Client", callAs: "c.updatePendingElection", leanName: "updatePendingElection",
+		params:       []param{{goName: "id", goType: "*spb.Uint128", lean: "id", kd: kPtr("Uint128")}},
+		goRets:       "", rets: []string{},
+		oracleParams: []param{clNow},
+		oracles:      clOracles,
+		state:        []stateField{clElec},
+	},
+	{
+		file: "client/gribiclient.go", goName: "pendingSessionParams", recvType: "*Client", callAs: "c.pendingSessionParams", leanName: "pendingSessionParams",
+		params:       []param{{goName: "out", goType: "*spb.SessionParameters", lean: "out", kd: kPtr("SessionParameters")}},
+		goRets:       "", rets: []string{},
+		oracleParams: []param{clNow},
+		oracles:      clOracles,
+		state:        []stateField{clParams},
+	},
+	{
+		file: "client/gribiclient.go", goName: "handleModifyRequest", recvType: "*Client", callAs: "c.handleModifyRequest", leanName: "handleModifyRequest",
+		params:       []param{{goName: "m", goType: "*spb.ModifyRequest", lean: "m", kd: kPtr("ModifyRequestC"), nonnil: true}},
+		goRets:       "error", rets: []string{"err"},
+		oracleParams: []param{clNow},
+		oracles:      clOracles,
+		state:        []stateField{clPend, clElec, clParams},
+	},
+	{
+		file: "client/gribiclient.go", goName: "clearPendingElection", recvType: "*Client", callAs: "c.clearPendingElection", leanName: "clearPendingElection",
+		params:       []param{},
+		goRets:       "*OpResult", rets: []string{"ptrnn:COpResult"},
+		oracleParams: []param{clNow},
+		oracles:      clOracles,
+		state:        []stateField{clElec},
+		typeMap:      clTypes,
+	},
+	{
+		file: "client/gribiclient.go", goName: "clearPendingSessionParams", recvType: "*Client", callAs: "c.clearPendingSessionParams", leanName: "clearPendingSessionParams",
+		params:       []param{},
+		goRets:       "*OpResult", rets: []string{"ptrnn:COpResult"},
+		oracleParams: []param{clNow},
+		oracles:      clOracles,
+		state:        []stateField{clParams},
+		typeMap:      clTypes,
+	},
+	{
+		file: "client/gribiclient.go", goName: "clearPendingOp", recvType: "*Client", callAs: "c.clearPendingOp", leanName: "clearPendingOp",
+		params:       []param{{goName: "op", goType: "*spb.AFTResult", lean: "op", kd: kPtr("AFTResultC"), nonnil: true}},
+		goRets:       "*OpResult, error", rets: []string{"ptr:COpResult", "err"},
+		oracleParams: []param{clNow, clTreat, clSess, clOpFrom},
+		oracles:      clOracles,
+		subst:        clSubst,
+		state:        []stateField{clPend},
+		typeMap:      clTypes,
+	},
+	{
+		file: "client/gribiclient.go", goName: "handleModifyResponse", recvType: "*Client", callAs: "c.handleModifyResponse", leanName: "handleModifyResponse",
+		params:       []param{{goName: "m", goType: "*spb.ModifyResponse", lean: "m", kd: kPtr("ModifyResponseC")}},
+		goRets:       "error", rets: []string{"err"},
+		oracleParams: []param{clNow, clTreat, clSess, clOpFrom},
+		oracles:      clOracles,
+		subst:        clSubst,
+		state:        []stateField{clPend, clElec, clParams, clResq},
+		typeMap:      clTypes,
+	},
+}
+
+func init() { specs = append(specs, clientSpecs...) }
